@@ -50,6 +50,7 @@ type Director struct {
 	order   []string
 	extra   map[int64]string // other goroutines to watch (role by goid), e.g. library goroutines
 	Timeout time.Duration
+	LibWho  func(point string) string // names the library goroutine that reached an armed point ("" = do not park)
 }
 
 // NewDirector makes an empty director.
@@ -100,6 +101,9 @@ func (d *Director) ArmPoints(names ...string) {
 				t.mu.Unlock()
 			}
 			dd.mu.Unlock()
+			if who == "" && dd.LibWho != nil {
+				who = dd.LibWho(name) // a library goroutine (e.g. manageStreams), named by its role
+			}
 			if who == "" {
 				return
 			}
